@@ -165,7 +165,8 @@ def run(F, R, tier):
     # ------------------------------------------------------------------ R1
     hrs = R.anchor(HRS, "C04.R1")
     if hrs:
-        B = mir.Body(hrs, F)
+        from lib import inline
+        B = mir.Body(inline.with_request_helpers(F, hrs), F)
         sig = B.calls_named("hyper_client::as_sig_input")
         fp = B.calls_named("Request::<T>::from_parts")
         snd = B.calls_named("HttpConnectionContext::send_request")
@@ -257,7 +258,8 @@ def run(F, R, tier):
     # HNR: claims/date inserts dominate the HRS call (signed request already carries the proxy headers)
     hnr = R.anchor(HNR, "C04.R1")
     if hnr:
-        B = mir.Body(hnr, F)
+        from lib import inline
+        B = mir.Body(inline.with_request_helpers(F, hnr), F)
         ins = [m[0] for m in header_mutations(B) if m[1] == "insert"]
         hc = [c[0] for c in B.calls_named("ProxyServer::handle_request_with_signature")]
         okd = True
